@@ -239,19 +239,30 @@ def ensure_makefile():
         sh('coq_makefile -f _CoqProject -o Makefile.coq', cwd=COQ)
 
 
+_DEPS = None
+
+
+def dep_graph():
+    global _DEPS
+    if _DEPS is None:
+        rc, out = sh('coqdep -Q . DF $(grep "\\.v$" _CoqProject)', cwd=COQ)
+        deps = {}
+        for line in out.splitlines():
+            if ':' not in line:
+                continue
+            lhs, rhs = line.split(':', 1)
+            tgt = [t for t in lhs.split() if t.endswith('.vo')]
+            if not tgt:
+                continue
+            src = tgt[0][:-1]
+            deps[src] = [d[:-1] for d in rhs.split() if d.endswith('.vo')]
+        _DEPS = deps
+    return _DEPS
+
+
 def cone_of(vfile):
     """transitive dependency cone (list of .v files, relative to COQ) of a .v file"""
-    rc, out = sh('coqdep -Q . DF $(grep "\\.v$" _CoqProject)', cwd=COQ)
-    deps = {}
-    for line in out.splitlines():
-        if ':' not in line:
-            continue
-        lhs, rhs = line.split(':', 1)
-        tgt = [t for t in lhs.split() if t.endswith('.vo')]
-        if not tgt:
-            continue
-        src = tgt[0][:-1]
-        deps[src] = [d[:-1] for d in rhs.split() if d.endswith('.vo')]
+    deps = dep_graph()
     seen, todo = [], [vfile]
     while todo:
         f = todo.pop()
@@ -260,6 +271,19 @@ def cone_of(vfile):
         seen.append(f)
         todo.extend(deps.get(f, []))
     return sorted(seen)
+
+
+def up_to_date(vfile):
+    """the .vo exists and is newer than every source in the file's own cone"""
+    vo = os.path.join(COQ, vfile + 'o')
+    if not os.path.exists(vo):
+        return False
+    t = os.path.getmtime(vo)
+    for f in cone_of(vfile):
+        p = os.path.join(COQ, f)
+        if os.path.exists(p) and os.path.getmtime(p) > t + 1e-6:
+            return False
+    return True
 
 
 STMT_RE = re.compile(r'^\s*(?:Local\s+|Global\s+)?(Theorem|Lemma|Corollary|Example|Fact|Remark|Proposition)\s+([A-Za-z0-9_\']+)', re.M)
@@ -302,8 +326,7 @@ def build_cone(props_v, timeout=1500):
             forbidden.append('%s: %s' % (f, m.group(0)))
         stm = STMT_RE.findall(text)
         obligations += len(stm)
-        vo = p + 'o'
-        if os.path.exists(vo) and os.path.getmtime(vo) >= os.path.getmtime(p):
+        if up_to_date(f):
             discharged += len(stm)
             if f == props_v:
                 names = [n for _, n in stm]
